@@ -1146,9 +1146,9 @@ def sun_compact(U, rtol=1e-12, atol=1e-12):
         raise ValueError("The input matrix is not unitary.")
 
     # if Unitary, factorize into phase times Special Unitary
-    SU = U.copy()
+    SU = U.astype(np.complex128)
     if not np.isclose(det, 1, rtol=rtol, atol=atol):
-        SU *= det ** (-1 / n)
+        SU *= complex(det) ** (-1 / n)
         global_phase = np.angle(det)
 
     # Decompose the matrix
@@ -1271,21 +1271,23 @@ def _build_staircase(U, rtol=1e-12, atol=1e-12):
             if rot_idx != n - 2:
                 # The denominator of the transformation is the difference of
                 # absolute values of all columns *up* to this point.
-                sum_of_column = 0
-                for k in range(i):
-                    sum_of_column += pow(np.absolute(running_prod[k, 0]), 2)
-                cf = np.sqrt(1 - sum_of_column)
-
+                # The normalisation is the norm of the not-yet-nulled part of the column,
+                # |y|^2 + |z|^2 = 1 - sum_{k<i} |u_k0|^2, computed without cancellation;
+                # if that part is already zero there is nothing to rotate.
                 y, z = running_prod[i, 0], running_prod[j, 0]
-                capY, capZ = y / cf, z / cf
+                cf = np.sqrt(pow(np.absolute(y), 2) + pow(np.absolute(z), 2))
 
-                # Build the SU(2) transformation and embed it into the larger matrix
-                Rij_inv = np.array([[np.conj(capY), np.conj(capZ)], [-capZ, capY]])
+                if cf > 0:
+                    capY, capZ = y / cf, z / cf
+
+                    # Build the SU(2) transformation and embed it into the larger matrix
+                    Rij_inv = np.array([[np.conj(capY), np.conj(capZ)], [-capZ, capY]])
             else:
                 # The last transformation, R12 is special and the rotation has
                 # a different form
+                # (after the previous rotations running_prod[1, 0] = sqrt(1 - |x|^2) >= 0)
                 x = U[0, 0]
-                cf = np.sqrt(1 - pow(np.absolute(x), 2))
+                cf = np.absolute(running_prod[1, 0])
                 Rij_inv = np.array([[np.conj(x), cf], [-cf, x]])
 
             # Add the transformation to the sequence and update the product
@@ -1396,12 +1398,12 @@ def _su3_parameters(U):
     # Special case: if the top left element is 1, then we essentially
     # already have an SU(2) transformation embedded in an SU(3) transform,
     # so all we need to do is get the parameters of that SU(2) transform.
-    if np.isclose(x, 1):
+    if np.isclose(x, 1, rtol=1e-12, atol=1e-12):
         params = [[0.0, 0.0, 0.0], [0.0, 0.0, 0.0], _su2_parameters(U[1:, 1:])]
     # Another special case: the modulus of the top left element is 1.
     # Then we need to do a transformation on modes 1 and 2 to make the top
     # entry 1, then an SU(2) transformation on modes 2 and 3 with what's left.
-    elif np.isclose(np.abs(x), 1):
+    elif np.isclose(np.abs(x), 1, rtol=1e-12, atol=1e-12):
         # Compute the required phase matrix and embed into SU(3)
         phase_su2 = np.array([[np.conj(x), 0], [0, x]])
 
@@ -1419,8 +1421,8 @@ def _su3_parameters(U):
         ]
 
     else:
-        # Typical case
-        cf = np.sqrt(1 - pow(np.absolute(x), 2))
+        # Typical case (cf = sqrt(1 - |x|^2), computed without cancellation)
+        cf = np.sqrt(pow(np.absolute(y), 2) + pow(np.absolute(z), 2))
         capY, capZ = y / cf, z / cf
 
         # Build the SU(2) transformation matrices
